@@ -145,8 +145,7 @@ class History(object):
             raise RuntimeError("observer AddMatch refused: %r" % r)
         for i in range(rng.randint(3, 5)):
             self.new_client(named=(i < 2 or rng.random() < 0.8))
-        self.sync()
-        self.absorb()            # NameAcquired etc.
+        self.quiesce()
 
     def sync(self, first=None):
         self.phase = "barrier"
@@ -226,6 +225,12 @@ class History(object):
                                "%s received an unexplained error from the bus: %r" % (self.lab(e.at), e.rec))
             else:
                 self.violation("unexpected-driver-message", "%s received an unexplained driver message: %r" % (self.lab(e.at), e.rec))
+
+    def quiesce(self):
+        self.sync()
+        evs = self.absorb()
+        self.settle(evs)
+        self.leftovers(evs)
 
     def token(self, kind, **kw):
         self.ntok += 1
@@ -452,6 +457,7 @@ class History(object):
                 break
             if len(self.clients) < 2:
                 self.new_client(named=True)
+                self.quiesce()
                 continue
             r = rng.random()
             slots = list(self.model.slots.values())
@@ -542,8 +548,7 @@ class History(object):
                 self.op_disconnect(c)
                 if len(self.clients) < 3 or rng.random() < 0.5:
                     self.new_client(named=rng.random() < 0.85)
-                    self.sync()
-                    self.leftovers(self.absorb())
+                    self.quiesce()
                 done = True
             elif 0.925 <= r < 0.95:
                 cand = [t for t in self.ghost_slots if self.by_unique(t[1]) is not None]
@@ -580,6 +585,8 @@ class History(object):
                 self.op_call(caller, cal, cal.unique, rng.random() < 0.4, no_reply=nr, klass="no-reply-expected" if nr else "fresh")
             else:
                 self.new_client(named=True)
+                self.quiesce()
+        self.quiesce()
         self.finish()
 
     def finish(self):
